@@ -11,7 +11,9 @@
     * `updateCoords`/`updatePayloads` (deep copy, 1175-1194)           → `mUpdate`
     * `Tensor.__init__` / `fromFiber` (118-168, 354-384)               → `mFromFiber`, `mEmpty`
     * `Rank.append` shape estimation (rank.py:445-460) + `Rank.getShape` (237-242) → `estShape`
-    * lazy results (iterators.py:402-404 … 1366-1370, fiber.py:1074-1076, 1326-1339) → `lazyAttrs`
+    * lazy results (iterators.py: the `fromIterator(…, active_range=…)` + `setId` pair that ends each of
+      coiterRangeShape(Ref), intersection, union, __and__, __or__, __xor__, __lshift__, __sub__;
+      fiber.py: end of `prune` (1074-1076) and `project` (1322-1336))                     → `lazyAttrs`
     * `_addFiber` reconciliation + owner delegation (tensor.py:731-753, fiber.py:1448-1572,
       2648-2653)                                                       → `joinShape`, `joined`
 
@@ -442,7 +444,7 @@ inductive LazyOp
 
 def affine (k m c : Int) : Int := k * c + m
 
-/-- `project` (fiber.py:1326-1334) without interval: the transformed active range -/
+/-- `project` (fiber.py:1322-1331) without interval: the transformed active range -/
 def projRange (k m lo hi : Int) : Int × Int :=
   let s := affine k m lo
   let e := affine k m (hi - 1)
